@@ -35,6 +35,7 @@ import (
 	"encoding/json"
 	"fmt"
 	"math"
+	"math/big"
 	"math/rand"
 	"os"
 	"sort"
@@ -93,6 +94,11 @@ type stCase struct {
 
 	// aux
 	Probe string `json:"probe"`
+
+	// big
+	N1    int    `json:"n1"`
+	N2    int    `json:"n2"`
+	Shape string `json:"shape"`
 }
 
 func famStats(mode string, args []string) error {
@@ -154,6 +160,8 @@ func stReplay(raw json.RawMessage) Verdict {
 		return stAux(&c)
 	case "geoscaled":
 		return stGeoScaled(&c)
+	case "big":
+		return stBig(&c)
 	}
 	stBad("unknown kind %q", c.Kind)
 	return pass()
@@ -298,6 +306,33 @@ func stFail(sig, conc string, want, got interface{}, format string, a ...interfa
 // against the spec's expectation: error class, or t^2 / sign / degrees of freedom,
 // and the relations between the three p-values.
 func stCheckT(test, conc string, want *stT, tail map[string]string, n1, n2 int, call func(stats.LocationHypothesis) (*stats.TTestResult, error)) *Verdict {
+	w := &stWant{Errs: want.Errs, May: want.May, T2Zero: want.T2[0] == 0, Sgn: want.Sgn,
+		T2OK:  func(t2 float64) bool { return stRel(t2, want.T2) },
+		DofOK: func(d float64) bool { return stRel(d, want.Dof) },
+		Show:  map[string]interface{}{"t2": want.T2, "sgn": want.Sgn, "dof": want.Dof},
+		Text:  fmt.Sprintf("T^2=%d/%d=%v, sign %d, degrees of freedom %d/%d=%v", want.T2[0], want.T2[1], want.T2.f(), want.Sgn, want.Dof[0], want.Dof[1], want.Dof.f()),
+	}
+	if want.Dof[1] == 1 && (want.Dof[0] == 1 || want.Dof[0] == 2) {
+		w.ClosedForm = int(want.Dof[0])
+	}
+	return stCheckTCore(test, conc, w, tail, n1, n2, call)
+}
+
+// stWant is what the specification (small samples: Stats_gen; large samples: the same textbook
+// definitions evaluated in exact rationals by stBig) expects of one t-test.
+type stWant struct {
+	Errs, May  []string
+	T2Zero     bool
+	Sgn        int
+	T2OK       func(float64) bool
+	DofOK      func(float64) bool
+	Show       interface{}
+	Text       string
+	ClosedForm int     // 1 or 2: the degrees of freedom for which the auxiliary closed form applies
+	ZeroTol    float64 // |T| tolerated where the textbook statistic is 0 (default 1e-12)
+}
+
+func stCheckTCore(test, conc string, want *stWant, tail map[string]string, n1, n2 int, call func(stats.LocationHypothesis) (*stats.TTestResult, error)) *Verdict {
 	var res [3]*stats.TTestResult
 	permitted := 0 // alternatives answered with a permitted, not required, error
 	for i, alt := range stAlts {
@@ -343,10 +378,10 @@ func stCheckT(test, conc string, want *stT, tail map[string]string, n1, n2 int, 
 		return nil
 	}
 	t, dof := res[0].T, res[0].DoF
-	wantT := map[string]interface{}{"t2": want.T2, "sgn": want.Sgn, "dof": want.Dof}
+	wantT := want.Show
 	gotT := map[string]interface{}{"T": t, "DoF": dof, "P": []float64{res[0].P, res[1].P, res[2].P}}
-	if want.T2[0] == 0 {
-		if !(math.Abs(t) <= 1e-12) {
+	if want.T2Zero {
+		if !(math.Abs(t) <= math.Max(1e-12, want.ZeroTol)) {
 			return stFail(test+"-t", conc, wantT, gotT, "%s: T=%v, the textbook statistic is 0", test, t)
 		}
 	} else {
@@ -356,13 +391,12 @@ func stCheckT(test, conc string, want *stT, tail map[string]string, n1, n2 int, 
 		} else if t < 0 {
 			sg = -1
 		}
-		if !stRel(t*t, want.T2) || sg != want.Sgn {
-			return stFail(test+"-t", conc, wantT, gotT, "%s: T=%v (T^2=%v), the textbook statistic has T^2=%d/%d=%v and sign %d",
-				test, t, t*t, want.T2[0], want.T2[1], want.T2.f(), want.Sgn)
+		if !want.T2OK(t*t) || sg != want.Sgn {
+			return stFail(test+"-t", conc, wantT, gotT, "%s: T=%v (T^2=%v), the textbook statistic has %s", test, t, t*t, want.Text)
 		}
 	}
-	if !stRel(dof, want.Dof) {
-		return stFail(test+"-dof", conc, wantT, gotT, "%s: DoF=%v, the textbook degrees of freedom are %d/%d=%v", test, dof, want.Dof[0], want.Dof[1], want.Dof.f())
+	if !want.DofOK(dof) {
+		return stFail(test+"-dof", conc, wantT, gotT, "%s: DoF=%v, the textbook result has %s", test, dof, want.Text)
 	}
 	// relations between the code's own three p-values
 	less, two, greater := res[0].P, res[1].P, res[2].P
@@ -396,18 +430,80 @@ func stCheckT(test, conc string, want *stT, tail map[string]string, n1, n2 int, 
 	}
 	// AUXILIARY (outside the model): closed forms of the t distribution function for 1 and 2
 	// degrees of freedom
-	if want.Dof[1] == 1 && (want.Dof[0] == 1 || want.Dof[0] == 2) && want.T2[0] != 0 {
+	if want.ClosedForm != 0 && !want.T2Zero {
 		var cf float64
-		if want.Dof[0] == 1 {
+		if want.ClosedForm == 1 {
 			cf = 0.5 + math.Atan(t)/math.Pi
 		} else {
 			cf = 0.5 + t/(2*math.Sqrt(2+t*t))
 		}
 		if math.Abs(less-cf) > tol {
-			return stFail("aux-tcdf-closed-form", conc, cf, gotT, "auxiliary: %s with %d degrees of freedom: P(less)=%v, closed form %v", test, want.Dof[0], less, cf)
+			return stFail("aux-tcdf-closed-form", conc, cf, gotT, "auxiliary: %s with %d degrees of freedom: P(less)=%v, closed form %v", test, want.ClosedForm, less, cf)
+		}
+	}
+	// the textbook tail probabilities: the upper tail of |t| of Student's t distribution with the
+	// (verified) degrees of freedom, by an independent quadrature of the density (stTUpper)
+	if dof >= 1 && dof <= 1e5 && !math.IsNaN(t) && !math.IsInf(t, 0) {
+		up := stTUpper(math.Abs(t), dof)
+		wl, wg := 1-up, up
+		if t < 0 {
+			wl, wg = up, 1-up
+		}
+		for i, wp := range []float64{wl, 2 * up, wg} {
+			if p := []float64{less, two, greater}[i]; math.Abs(p-wp) > 1e-9*wp+1e-13 {
+				return stFail(test+"-p-textbook", conc, map[string]interface{}{"less": wl, "two": 2 * up, "greater": wg}, gotT,
+					"%s alt=%s: P=%v; Student's t distribution with %v degrees of freedom puts %v there (T=%v; upper tail of |T| = %v by quadrature of the density)",
+					test, stAlts[i].name, p, dof, wp, t, up)
+			}
 		}
 	}
 	return nil
+}
+
+// stTUpper is the textbook upper tail P(T > t), t >= 0, of Student's t distribution with v >= 1
+// degrees of freedom, written from the density alone: substituting x = sqrt(v) cot(psi),
+//
+//	P = Gamma((v+1)/2) / (sqrt(pi) Gamma(v/2)) * Int_0^a sin^(v-1)(psi) dpsi,   a = atan(sqrt(v)/t),
+//
+// integrated by the tanh-sinh rule over the part of [0, a] where the integrand exceeds
+// e^-100 of its maximum. It shares nothing with internal/stats (no incomplete beta function);
+// against the finite series of Abramowitz & Stegun 26.7.3/4 for integer v it agrees to 2e-13.
+func stTUpper(t, v float64) float64 {
+	if t == 0 {
+		return 0.5
+	}
+	a := math.Atan2(math.Sqrt(v), t)
+	lg1, _ := math.Lgamma((v + 1) / 2)
+	lg2, _ := math.Lgamma(v / 2)
+	lsa := math.Log(math.Sin(a))
+	lo := 0.0
+	if v > 1 {
+		lo = math.Asin(math.Sin(a) * math.Exp(-100/(v-1)))
+	}
+	f := func(psi float64) float64 {
+		if v == 1 {
+			return 1
+		}
+		if psi <= 0 {
+			return 0
+		}
+		return math.Exp((v - 1) * (math.Log(math.Sin(psi)) - lsa))
+	}
+	half := (a - lo) / 2
+	const h = 1.0 / 64
+	sum := 0.0
+	for k := -400; k <= 400; k++ {
+		u := math.Pi / 2 * math.Sinh(float64(k)*h)
+		w := math.Pi / 2 * math.Cosh(float64(k)*h) / (math.Cosh(u) * math.Cosh(u))
+		var x float64 // lo + half (1 + tanh u), measured from the nearer end
+		if u > 0 {
+			x = a - half*(2/(1+math.Exp(2*u)))
+		} else {
+			x = lo + half*(2/(1+math.Exp(-2*u)))
+		}
+		sum += w * f(x)
+	}
+	return math.Exp(lg1-lg2+(v-1)*lsa) / math.Sqrt(math.Pi) * sum * h * half
 }
 
 // ---------------------------------------------------------------- desc
@@ -698,6 +794,44 @@ func stTT(c *stCase) Verdict {
 		}); v != nil {
 			return *v
 		}
+		// history: the caller keeps ONE array per sample and asks several things in a row. The
+		// statistics of the samples as supplied do not depend on what was asked before: first every
+		// query on one side (seed-chosen), the order-sensitive paired test, then the other side.
+		HX, HY := stCopy(PX), stCopy(PY)
+		sides := []stats.Sample{{Xs: HX}, {Xs: HY}}
+		if c.Salt%2 == 1 {
+			sides[0], sides[1] = sides[1], sides[0]
+		}
+		for si, sd := range sides {
+			if len(sd.Xs) > 0 {
+				_, _ = sd.Mean(), sd.Variance()
+				_, _ = sd.Bounds()
+				_, _, _, _ = sd.Percentile(0.5), sd.Percentile(1.0/3), sd.IQR(), sd.StdDev()
+			}
+			hconc := fmt.Sprintf("%s, on the same arrays after Mean/Variance/Bounds/Percentile/IQR/StdDev of %d of the two samples", pconc, si+1)
+			for _, tc := range []struct {
+				name string
+				want *stT
+				call func(h stats.LocationHypothesis) (*stats.TTestResult, error)
+			}{
+				{"paired", c.Paired, func(h stats.LocationHypothesis) (*stats.TTestResult, error) { return stats.PairedTTest(HX, HY, 0, h) }},
+				{"welch", nil, func(h stats.LocationHypothesis) (*stats.TTestResult, error) {
+					return stats.TwoSampleWelchTTest(stats.Sample{Xs: HX}, stats.Sample{Xs: HY}, h)
+				}},
+				{"pooled", nil, func(h stats.LocationHypothesis) (*stats.TTestResult, error) {
+					return stats.TwoSampleTTest(stats.Sample{Xs: HX}, stats.Sample{Xs: HY}, h)
+				}},
+			} {
+				want := tc.want
+				if tc.name != "paired" { // (px, py are x, y in another order)
+					want = map[string]*stT{"welch": c.Welch, "pooled": c.Pooled}[tc.name]
+				}
+				if v := stCheckT(tc.name, hconc, want, c.Tail, len(HX), len(HY), tc.call); v != nil {
+					v.Signature += "/after-queries"
+					return *v
+				}
+			}
+		}
 	}
 	return pass()
 }
@@ -747,6 +881,405 @@ func stPD(c *stCase) Verdict {
 		}
 	}
 	return pass()
+}
+
+// ---------------------------------------------------------------- big: samples of up to several hundred values
+
+// The textbook definitions of Stats.tla's declarative side (DMean, DVar, OrderStat, DPct with
+// p any rational, DOneOf, DWelchOf, DPooledOf, DPaired, the error sets) do not depend on the
+// sample size; TLC evaluates them on small integer samples only (its integers are 32 bit).
+// stBig evaluates the same definitions in exact rationals (math/big) on samples of the sizes
+// the property quantifies over ("1 to several hundred finite values of widely varying
+// magnitude, ordering and multiplicity, sorted or not") - every float is an exact rational -
+// and compares internal/stats with them. The plan sweeps the sizes (every n from 2 to 130,
+// so both sides of any size- or degrees-of-freedom-dependent switch, and some up to 700).
+//
+// Every sample lives in ONE array handed to the code again and again (as a caller would keep
+// it): first the order-sensitive paired test on the fresh arrays, then all queries, then the
+// paired test once more on the same arrays ("history"): a query may not change what a later
+// one sees.
+
+type stRatT struct {
+	t2, dof *big.Rat
+	sgn     int
+	// conditioning of the statistic: the difference of means d that it divides, its standard error,
+	// and n x the magnitude of the data (a mean of n floats of magnitude s is only determined to a
+	// few n ulps of s: "within a few ulps of the data's scale")
+	d, se, nscale float64
+}
+
+func stR(x float64) *big.Rat    { return new(big.Rat).SetFloat64(x) }
+func stRI(n int) *big.Rat       { return new(big.Rat).SetInt64(int64(n)) }
+func stRF(r *big.Rat) float64   { f, _ := r.Float64(); return f }
+func stRSq(r *big.Rat) *big.Rat { return new(big.Rat).Mul(r, r) }
+
+type stSum struct {
+	n        int
+	mean, ss *big.Rat // ss: sum of squared deviations from the mean
+	vr       *big.Rat // ss / (n-1), 0 for n < 2
+	allEqual bool
+	scale    float64
+	sorted   []float64
+}
+
+func stSumOf(xs []float64) *stSum {
+	a := &stSum{n: len(xs), mean: new(big.Rat), ss: new(big.Rat), vr: new(big.Rat), allEqual: true}
+	for _, x := range xs {
+		a.mean.Add(a.mean, stR(x))
+		a.scale = math.Max(a.scale, math.Abs(x))
+		if x != xs[0] {
+			a.allEqual = false
+		}
+	}
+	if a.n == 0 {
+		return a
+	}
+	a.mean.Quo(a.mean, stRI(a.n))
+	for _, x := range xs {
+		a.ss.Add(a.ss, stRSq(new(big.Rat).Sub(stR(x), a.mean)))
+	}
+	if a.n >= 2 {
+		a.vr.Quo(a.ss, stRI(a.n-1))
+	}
+	a.sorted = stCopy(xs)
+	sort.Float64s(a.sorted)
+	return a
+}
+
+// R8 (Hyndman and Fan, definition 8) at the rational p: h = (n + 1/3) p + 1/3,
+// Q = (1-g) x_(j) + g x_(j+1) with j = floor(h), g = h - j, order statistics clamped to 1..n.
+func (a *stSum) pct(p float64) *big.Rat {
+	if p <= 0 {
+		return stR(a.sorted[0])
+	}
+	if p >= 1 {
+		return stR(a.sorted[a.n-1])
+	}
+	third := big.NewRat(1, 3)
+	h := new(big.Rat).Add(stRI(a.n), third)
+	h.Mul(h, stR(p)).Add(h, third)
+	j := new(big.Int).Quo(h.Num(), h.Denom()) // h > 0
+	g := new(big.Rat).Sub(h, new(big.Rat).SetInt(j))
+	clamp := func(k int64) float64 {
+		if k < 1 {
+			k = 1
+		}
+		if k > int64(a.n) {
+			k = int64(a.n)
+		}
+		return a.sorted[k-1]
+	}
+	lo, hi := stR(clamp(j.Int64())), stR(clamp(j.Int64()+1))
+	q := new(big.Rat).Sub(hi, lo)
+	return q.Mul(q, g).Add(q, lo)
+}
+
+func stOneT(a *stSum, mu float64) stRatT {
+	d := new(big.Rat).Sub(a.mean, stR(mu))
+	se2 := new(big.Rat).Quo(a.vr, stRI(a.n))
+	return stRatT{t2: new(big.Rat).Quo(stRSq(d), se2), sgn: d.Sign(), dof: stRI(a.n - 1),
+		d: stRF(d), se: math.Sqrt(stRF(se2)), nscale: float64(a.n) * math.Max(a.scale, math.Abs(mu))}
+}
+
+func stWelchT(a, b *stSum) stRatT {
+	a1 := new(big.Rat).Quo(a.vr, stRI(a.n))
+	a2 := new(big.Rat).Quo(b.vr, stRI(b.n))
+	se2 := new(big.Rat).Add(a1, a2)
+	d := new(big.Rat).Sub(a.mean, b.mean)
+	den := new(big.Rat).Add(new(big.Rat).Quo(stRSq(a1), stRI(a.n-1)), new(big.Rat).Quo(stRSq(a2), stRI(b.n-1)))
+	return stRatT{t2: new(big.Rat).Quo(stRSq(d), se2), sgn: d.Sign(), dof: new(big.Rat).Quo(stRSq(se2), den),
+		d: stRF(d), se: math.Sqrt(stRF(se2)), nscale: float64(a.n+b.n) * math.Max(a.scale, b.scale)}
+}
+
+func stPooledT(a, b *stSum) stRatT {
+	sp2 := new(big.Rat).Add(a.ss, b.ss)
+	sp2.Quo(sp2, stRI(a.n+b.n-2))
+	d := new(big.Rat).Sub(a.mean, b.mean)
+	k := new(big.Rat).Add(big.NewRat(1, int64(a.n)), big.NewRat(1, int64(b.n)))
+	se2 := sp2.Mul(sp2, k)
+	return stRatT{t2: new(big.Rat).Quo(stRSq(d), se2), sgn: d.Sign(), dof: stRI(a.n + b.n - 2),
+		d: stRF(d), se: math.Sqrt(stRF(se2)), nscale: float64(a.n+b.n) * math.Max(a.scale, b.scale)}
+}
+
+func stWantOfRat(r stRatT, tol float64) *stWant {
+	t2, dof := stRF(r.t2), stRF(r.dof)
+	const ulp = 1.0 / (1 << 52)
+	derr := 16 * ulp * r.nscale // what the rounding of the means may move their difference by
+	t2tol := tol
+	if r.d != 0 {
+		t2tol += 2 * derr / math.Abs(r.d)
+	}
+	near := func(w, tol float64) func(float64) bool {
+		return func(x float64) bool {
+			return !math.IsNaN(x) && !math.IsInf(x, 0) && math.Abs(x-w) <= tol*math.Max(math.Abs(x), math.Abs(w))
+		}
+	}
+	w := &stWant{T2Zero: r.t2.Sign() == 0, Sgn: r.sgn, T2OK: near(t2, t2tol), DofOK: near(dof, tol), ZeroTol: derr / r.se,
+		Show: map[string]interface{}{"t2": t2, "sgn": r.sgn, "dof": dof},
+		Text: fmt.Sprintf("T^2=%v, sign %d, degrees of freedom %v (exact rational arithmetic)", t2, r.sgn, dof)}
+	if !w.T2Zero && math.Abs(r.d) <= 8*derr {
+		// the difference of the means is below what floats of this magnitude determine: only |T| small
+		w.T2Zero, w.Sgn, w.ZeroTol = true, 0, 2*(math.Abs(r.d)+derr)/r.se
+	}
+	return w
+}
+
+func stErrSet(size, zerovar, mismatch bool) []string {
+	var out []string
+	if mismatch {
+		out = append(out, "mismatch")
+	}
+	if size {
+		out = append(out, "size")
+	}
+	if zerovar {
+		out = append(out, "zerovar")
+	}
+	return out
+}
+
+// stBigGen draws a sample of n values of the given shape.
+func stBigGen(rng *rand.Rand, n int, shape string, side int) []float64 {
+	xs := make([]float64, n)
+	switch shape {
+	case "unit": // full mantissas of one magnitude; the second sample is shifted by a few standard errors
+		sh := 0.0
+		if side == 1 {
+			sh = (rng.Float64()*5 - 2.5) * 0.41 / math.Sqrt(float64(n))
+		}
+		sc := math.Ldexp(1, rng.Intn(41)-20)
+		if side == 1 {
+			sc = 0 // set by the caller: both sides share the scale
+		}
+		for i := range xs {
+			xs[i] = rng.Float64() + sh
+		}
+		_ = sc
+	case "int": // integers (exact sums), second sample shifted
+		off := float64(rng.Intn(3)-1) * 5000
+		sh := 0.0
+		if side == 1 {
+			sh = math.Round((rng.Float64()*5 - 2.5) * 820 / math.Sqrt(float64(n)))
+		}
+		for i := range xs {
+			xs[i] = float64(rng.Intn(2001)-1000) + off + sh
+		}
+	case "wide": // widely varying magnitude, both signs
+		for i := range xs {
+			xs[i] = math.Ldexp(1+rng.Float64(), rng.Intn(41)-20)
+			if rng.Intn(2) == 0 {
+				xs[i] = -xs[i]
+			}
+		}
+	case "ties": // a handful of distinct values, many repetitions
+		k := 2 + rng.Intn(4)
+		vals := make([]float64, k)
+		for i := range vals {
+			vals[i] = math.Round(rng.NormFloat64()*50) / 8
+		}
+		if vals[0] == vals[1] {
+			vals[1]++
+		}
+		for i := range xs {
+			xs[i] = vals[rng.Intn(k)]
+		}
+		xs[0], xs[n-1] = vals[0], vals[1] // never constant (n >= 2)
+	case "const": // one value: zero variance
+		v := []float64{0.1, 1.0 / 3, 7.3, 1e9 + 0.1, -2.7e-5, 3}[rng.Intn(6)]
+		for i := range xs {
+			xs[i] = v
+		}
+	default:
+		stBad("unknown shape %q", shape)
+	}
+	return xs
+}
+
+func stBig(c *stCase) Verdict {
+	rng := newRand(c.Salt)
+	n1, n2 := c.N1, c.N2
+	if n1 < 1 || n2 < 1 {
+		stBad("big case with an empty sample")
+	}
+	X, Y := stBigGen(rng, n1, c.Shape, 0), stBigGen(rng, n2, c.Shape, 1)
+	if c.Shape == "unit" || c.Shape == "int" { // a common exact rescaling
+		k := rng.Intn(41) - 20
+		for i := range X {
+			X[i] = math.Ldexp(X[i], k)
+		}
+		for i := range Y {
+			Y[i] = math.Ldexp(Y[i], k)
+		}
+	}
+	if c.Salt%3 == 0 { // sometimes handed over in nondecreasing order, marked Sorted
+		sort.Float64s(X)
+		sort.Float64s(Y)
+	}
+	sortedMark := c.Salt%3 == 0
+	X0, Y0 := stCopy(X), stCopy(Y) // the samples as supplied
+	a, b := stSumOf(X0), stSumOf(Y0)
+	conc := fmt.Sprintf("shape %s, n1=%d n2=%d, salt %d: x1=%v... x2=%v...", c.Shape, n1, n2, c.Salt, X0[:stMinInt(4, n1)], Y0[:stMinInt(4, n2)])
+	const tol = 1e-9
+
+	// the paired test of the first m values by position, and its expectation
+	m := stMinInt(n1, n2)
+	diffs := make([]*big.Rat, m)
+	dsum := &stSum{n: m, mean: new(big.Rat), ss: new(big.Rat), vr: new(big.Rat), allEqual: true}
+	for i := 0; i < m; i++ {
+		diffs[i] = new(big.Rat).Sub(stR(X0[i]), stR(Y0[i]))
+		dsum.mean.Add(dsum.mean, diffs[i])
+		if diffs[i].Cmp(diffs[0]) != 0 {
+			dsum.allEqual = false
+		}
+	}
+	dsum.mean.Quo(dsum.mean, stRI(m))
+	for i := 0; i < m; i++ {
+		dsum.ss.Add(dsum.ss, stRSq(new(big.Rat).Sub(diffs[i], dsum.mean)))
+	}
+	if m >= 2 {
+		dsum.vr.Quo(dsum.ss, stRI(m-1))
+	}
+	var pairedWant *stWant
+	if errs := stErrSet(m < 2, dsum.allEqual, false); len(errs) > 0 {
+		pairedWant = &stWant{Errs: errs}
+	} else {
+		pairedWant = stWantOfRat(stOneT(dsum, 0), tol)
+	}
+	paired := func(when string) *Verdict {
+		v := stCheckTCore("paired", conc+" (first "+fmt.Sprint(m)+" of each, "+when+")", pairedWant, c.Tail, m, m, func(h stats.LocationHypothesis) (*stats.TTestResult, error) {
+			return stats.PairedTTest(X[:m:m], Y[:m:m], 0, h)
+		})
+		return v
+	}
+	if v := paired("fresh arrays"); v != nil {
+		return *v
+	}
+
+	// descriptive statistics, on the long-lived sample objects
+	s1, s2 := stats.Sample{Xs: X, Sorted: sortedMark}, stats.Sample{Xs: Y, Sorted: sortedMark}
+	for si, sd := range []struct {
+		s   stats.Sample
+		sum *stSum
+	}{{s1, a}, {s2, b}} {
+		s, sum := sd.s, sd.sum
+		who := fmt.Sprintf("sample %d of %s", si+1, conc)
+		near := func(x float64, r *big.Rat, scale float64) bool {
+			w := stRF(r)
+			return !math.IsNaN(x) && !math.IsInf(x, 0) && math.Abs(x-w) <= 1e-12*math.Max(math.Max(math.Abs(x), math.Abs(w)), scale)
+		}
+		for _, g := range []struct {
+			name string
+			v    float64
+		}{{"Sample.Mean", s.Mean()}, {"Mean", stats.Mean(s.Xs)}} {
+			if !near(g.v, sum.mean, sum.scale) {
+				return *stFail("mean/many-values", who, stRF(sum.mean), g.v, "%s=%v; exact mean %v", g.name, g.v, stRF(sum.mean))
+			}
+		}
+		if sum.n >= 2 {
+			sd1, sd2 := s.StdDev(), stats.StdDev(s.Xs)
+			for _, g := range []struct {
+				name string
+				v    float64
+			}{{"Sample.Variance", s.Variance()}, {"Variance", stats.Variance(s.Xs)}, {"Sample.StdDev^2", sd1 * sd1}, {"StdDev^2", sd2 * sd2}} {
+				if !near(g.v, sum.vr, sum.scale*sum.scale) {
+					return *stFail("variance/many-values", who, stRF(sum.vr), g.v, "%s=%v; exact variance (n-1) %v", g.name, g.v, stRF(sum.vr))
+				}
+			}
+		}
+		lo, hi := s.Bounds()
+		lo2, hi2 := stats.Bounds(s.Xs)
+		if lo != sum.sorted[0] || hi != sum.sorted[sum.n-1] || lo2 != lo || hi2 != hi {
+			return *stFail("bounds/many-values", who, []float64{sum.sorted[0], sum.sorted[sum.n-1]}, []float64{lo, hi, lo2, hi2}, "Bounds: (%v, %v) / (%v, %v), minimum and maximum are (%v, %v)", lo, hi, lo2, hi2, sum.sorted[0], sum.sorted[sum.n-1])
+		}
+		nf := float64(sum.n)
+		ps := []float64{0, 1, 0.5, 0.25, 0.75, (2.0 / 3) / (nf + 1.0/3), (nf - 1.0/3) / (nf + 1.0/3), 1 / nf, 1 - 1/nf, 0.999, 0.001}
+		for j := 1; j < 12; j++ {
+			ps = append(ps, float64(j)/12)
+		}
+		for j := 0; j < 8; j++ {
+			ps = append(ps, rng.Float64())
+		}
+		sort.Float64s(ps)
+		prev := math.Inf(-1)
+		for _, p := range ps {
+			g := s.Percentile(p)
+			if w := sum.pct(p); !near(g, w, sum.scale) {
+				return *stFail("percentile/many-values", who, stRF(w), g, "Percentile(%v)=%v; R8 gives %v", p, g, stRF(w))
+			}
+			if g < prev || g < lo || g > hi {
+				return *stFail("percentile-not-monotone/many-values", who, []float64{prev, lo, hi}, g, "Percentile(%v)=%v after %v, bounds [%v, %v]", p, g, prev, lo, hi)
+			}
+			prev = g
+		}
+		if g, w := s.IQR(), new(big.Rat).Sub(sum.pct(0.75), sum.pct(0.25)); !near(g, w, sum.scale) {
+			return *stFail("iqr/many-values", who, stRF(w), g, "IQR()=%v; Q(3/4)-Q(1/4) = %v", g, stRF(w))
+		}
+	}
+
+	// t-tests on the same objects
+	one := func(s stats.Sample, sum *stSum, which int) *Verdict {
+		if sum.n < 2 || sum.allEqual {
+			// undersized or constant: an error (a single value has zero variance AND is undersized)
+			want := &stWant{Errs: stErrSet(sum.n < 2, sum.allEqual, false)}
+			return stCheckTCore("one-sample", conc, want, c.Tail, sum.n, 0, func(h stats.LocationHypothesis) (*stats.TTestResult, error) {
+				return stats.OneSampleTTest(s, 1, h)
+			})
+		}
+		sdv := math.Sqrt(stRF(sum.vr))
+		for _, z := range []float64{1.3, -2.2, 0.4} {
+			mu := stRF(sum.mean) + z*sdv/math.Sqrt(float64(sum.n))
+			if v := stCheckTCore("one-sample", fmt.Sprintf("sample %d of %s, mu0=%v", which, conc, mu), stWantOfRat(stOneT(sum, mu), tol), c.Tail, sum.n, 0, func(h stats.LocationHypothesis) (*stats.TTestResult, error) {
+				return stats.OneSampleTTest(s, mu, h)
+			}); v != nil {
+				return v
+			}
+		}
+		return nil
+	}
+	if v := one(s1, a, 1); v != nil {
+		return *v
+	}
+	if v := one(s2, b, 2); v != nil {
+		return *v
+	}
+	bothConst := a.allEqual && b.allEqual
+	var ww, pw *stWant
+	if errs := stErrSet(n1 < 2 || n2 < 2, bothConst, false); len(errs) > 0 {
+		ww = &stWant{Errs: errs}
+	} else {
+		ww = stWantOfRat(stWelchT(a, b), tol)
+	}
+	if errs := stErrSet(n1+n2 < 3, bothConst, false); len(errs) > 0 {
+		pw = &stWant{Errs: errs}
+	} else {
+		pw = stWantOfRat(stPooledT(a, b), tol)
+		if stMinInt(n1, n2) == 1 {
+			pw.May = []string{"size"}
+		}
+	}
+	if v := stCheckTCore("welch", conc, ww, c.Tail, n1, n2, func(h stats.LocationHypothesis) (*stats.TTestResult, error) {
+		return stats.TwoSampleWelchTTest(s1, s2, h)
+	}); v != nil {
+		return *v
+	}
+	if v := stCheckTCore("pooled", conc, pw, c.Tail, n1, n2, func(h stats.LocationHypothesis) (*stats.TTestResult, error) {
+		return stats.TwoSampleTTest(s1, s2, h)
+	}); v != nil {
+		return *v
+	}
+	// history: the same arrays after all these queries
+	if v := paired("after the queries above on the same arrays"); v != nil {
+		v.Signature += "/after-queries"
+		return *v
+	}
+	return pass()
+}
+
+func stMinInt(a, b int) int {
+	if a < b {
+		return a
+	}
+	return b
 }
 
 // ---------------------------------------------------------------- aux (outside the model)
@@ -825,6 +1358,30 @@ func stAux(c *stCase) Verdict {
 			// inverse is judged by the probability it reaches, not by x)
 			if got := inv(d.CDF(x)); math.IsNaN(got) || (math.Abs(got-x) > 1e-6*math.Max(1, math.Abs(x)) && math.Abs(d.CDF(got)-d.CDF(x)) > 1e-12) {
 				return aux("tdist-inverse", conc, "InvCDF(CDF(%v))=%v", x, got)
+			}
+		}
+		// far out in the tails ("all arguments x over the real line"): wherever the distribution
+		// function itself still separates x(1-d), x and x(1+d) by 1e-13 (about 900 ulps of a
+		// probability), a monotone function's inverse of CDF(x) lies within x(1 -+ d). The generic
+		// inverse brackets by doubling: the ladder climbs through every doubling (2^33 and more
+		// for 1..1.3 degrees of freedom) until the tail is no longer resolved.
+		for k := 0; k <= 1000; k++ {
+			ax := math.Ldexp(1+rng.Float64(), k)
+			if 1-d.CDF(ax/2) < 2e-13 {
+				break
+			}
+			for _, x := range []float64{ax, -ax} {
+				y := d.CDF(x)
+				for _, dl := range []float64{1e-6, 1e-4, 1e-2, 0.5} {
+					a, b := d.CDF(x-ax*dl), d.CDF(x+ax*dl)
+					if !(y-a >= 1e-13 && b-y >= 1e-13) {
+						continue
+					}
+					if got := inv(y); math.IsNaN(got) || got < x-ax*dl || got > x+ax*dl {
+						return aux("tdist-inverse-far", conc, "InvCDF(CDF(%v))=%v, although CDF(%v)=%v < CDF(%v)=%v < CDF(%v)=%v", x, got, x-ax*dl, a, x, y, x+ax*dl, b)
+					}
+					break
+				}
 			}
 		}
 	case "normal":
